@@ -190,4 +190,95 @@ theorem Hist.ofList_WF (as : List Nat) : (Hist.ofList as).WF := by
   | nil => intro h hh; exact hh
   | cons a as ih => intro h hh; exact ih _ (insertAdd_sorted a 1 h.counts hh)
 
+theorem keySum_of_mem (l : List (Nat × Nat)) (hs : SortedKeys l) (e : Nat × Nat) (he : e ∈ l) :
+    keySum l e.1 = e.2 := by
+  induction l with
+  | nil => cases he
+  | cons x xs ih =>
+    unfold SortedKeys at hs
+    rw [List.pairwise_cons] at hs
+    rcases List.mem_cons.mp he with rfl | he
+    · have hz : keySum xs e.1 = 0 := by
+        rw [keySum_eq_lookup xs hs.2, lookup_none_of_all_ne e.1 xs (fun e' he' => by have := hs.1 e' he'; omega)]; rfl
+      unfold keySum at hz ⊢
+      simp [List.filter_cons, hz]
+    · have hne : x.1 ≠ e.1 := by have := hs.1 e he; omega
+      have hb : (x.1 == e.1) = false := by simpa using hne
+      unfold keySum
+      simp only [List.filter_cons, hb]
+      exact ih hs.2 he
+
+/-- in a well-formed histogram the count of a listed key is the listed count -/
+theorem Hist.count_of_mem (h : Hist) (hw : h.WF) (e : Nat × Nat) (he : e ∈ h.counts) : h.count e.1 = e.2 := by
+  unfold Hist.count
+  rw [← keySum_eq_lookup h.counts hw e.1]
+  exact keySum_of_mem h.counts hw e he
+
+/-- a histogram as the code builds it: sorted keys, positive counts, `mass = Σ counts > 0` -/
+structure Hist.Valid (h : Hist) : Prop where
+  wf : h.WF
+  mass_eq : h.mass = (h.counts.map Prod.snd).sum
+  mass_pos : 0 < h.mass
+  counts_pos : ∀ e ∈ h.counts, 0 < e.2
+
+theorem insertAdd_sum (k c : Nat) (l : List (Nat × Nat)) :
+    ((insertAdd k c l).map Prod.snd).sum = (l.map Prod.snd).sum + c := by
+  induction l with
+  | nil => simp [insertAdd]
+  | cons x xs ih =>
+    obtain ⟨k', c'⟩ := x
+    unfold insertAdd
+    split
+    · simp; omega
+    · split
+      · simp; omega
+      · simp [ih]; omega
+
+theorem insertAdd_pos (k c : Nat) (hc : 0 < c) (l : List (Nat × Nat)) (hl : ∀ e ∈ l, 0 < e.2) :
+    ∀ e ∈ insertAdd k c l, 0 < e.2 := by
+  induction l with
+  | nil => intro e he; simp [insertAdd] at he; rw [he]; exact hc
+  | cons x xs ih =>
+    obtain ⟨k', c'⟩ := x
+    have hx : 0 < c' := hl (k', c') (by simp)
+    have hxs : ∀ e ∈ xs, 0 < e.2 := fun e he => hl e (by simp [he])
+    intro e he
+    unfold insertAdd at he
+    split at he
+    · rcases List.mem_cons.mp he with rfl | he
+      · show 0 < c' + c; omega
+      · exact hxs e he
+    · split at he
+      · rcases List.mem_cons.mp he with rfl | he
+        · exact hc
+        · exact hl e he
+      · rcases List.mem_cons.mp he with rfl | he
+        · exact hx
+        · exact ih hxs e he
+
+/-- `Histogram::from(Vec<Abstraction>)` of a non-empty vector is a valid histogram -/
+theorem Hist.ofList_valid (as : List Nat) (hne : as ≠ []) : (Hist.ofList as).Valid := by
+  have key : ∀ (as : List Nat) (h : Hist), h.WF → h.mass = (h.counts.map Prod.snd).sum → (∀ e ∈ h.counts, 0 < e.2) →
+      (as.foldl Hist.increment h).WF ∧
+      (as.foldl Hist.increment h).mass = ((as.foldl Hist.increment h).counts.map Prod.snd).sum ∧
+      (∀ e ∈ (as.foldl Hist.increment h).counts, 0 < e.2) ∧
+      (as.foldl Hist.increment h).mass = h.mass + as.length := by
+    intro as
+    induction as with
+    | nil => intro h h1 h2 h3; exact ⟨h1, h2, h3, rfl⟩
+    | cons a as ih =>
+      intro h h1 h2 h3
+      have := ih (h.increment a) (insertAdd_sorted a 1 h.counts h1)
+        (by simp only [Hist.increment]; rw [insertAdd_sum, h2])
+        (insertAdd_pos a 1 (by omega) h.counts h3)
+      refine ⟨this.1, this.2.1, this.2.2.1, ?_⟩
+      rw [List.foldl_cons, this.2.2.2]; simp [Hist.increment]; omega
+  obtain ⟨h1, h2, h3, h4⟩ := key as Hist.empty Hist.empty_WF rfl (by intro e he; cases he)
+  refine ⟨h1, h2, ?_, h3⟩
+  unfold Hist.ofList
+  rw [h4]
+  cases as with
+  | nil => exact absurd rfl hne
+  | cons a as => simp [Hist.empty]
+
 end RP.Transport
